@@ -26,4 +26,21 @@ decreasing_by
     | omega
     | (have := dropWhile_length_le isStar rest; omega)
 
+/-! ### witnesses for the two excluded shapes (`C17.C17_question_always_differs`, `C17_star_slash_differs`) -/
+
+/-- the glob contains an unescaped `?` -/
+def hasQ : Text → Bool
+  | [] => false
+  | ['\\'] => false
+  | '\\' :: _ :: r => hasQ r
+  | c :: r => c == '?' || hasQ r
+
+/-- a path in the dep5 language of `d`: every `*` stands for nothing, every `?` for `x`, every
+    other (possibly escaped) character for itself -/
+def dep5Witness : Text → Text
+  | [] => []
+  | ['\\'] => []
+  | '\\' :: c :: r => c :: dep5Witness r
+  | c :: r => if c == '*' then dep5Witness r else if c == '?' then 'x' :: dep5Witness r else c :: dep5Witness r
+
 end Spec
